@@ -347,3 +347,46 @@ Definition program_eqb (p q : program) : bool :=
 Lemma loops_cover : forallb (fun p => Nat.eqb (List.length (filter (fun r => program_eqb p (fst r)) coord_loops)) 1)
                             [ORCA; G09; G16; NWChem; QChem; MOPAC; XYZ] = true.
 Proof. vm_compute. reflexivity. Qed.
+
+(* ------------------------------------------------------------------ NWChem multiplicity control flow *)
+Lemma nw_loop_inv ks : forall acc dft nopen,
+  forallb (fun k => negb (k_opt1 k && k_dft k)) ks = true ->
+  let '(acc', dft', nopen') := nw_loop ks acc dft nopen in
+  (acc <> [] -> acc' <> []) /\
+  ((dft = true -> acc <> []) -> (nopen = true -> acc <> [] \/ existsb k_nopen ks = true \/ nopen = true) ->
+   (dft' = true -> acc' <> [])) /\
+  (nopen' = true -> acc' <> [] \/ existsb k_nopen ks = true \/ nopen = true).
+Proof.
+  induction ks as [|k r IH]; intros acc dft nopen Hk; cbn [nw_loop].
+  - repeat split; auto.
+  - cbn [forallb] in Hk. apply andb_true_iff in Hk. destruct Hk as [Hk Hr].
+    cbn [existsb].
+    destruct (k_opt1 k) eqn:O.
+    + cbn [andb] in Hk. apply negb_true_iff in Hk. rewrite Hk, orb_false_r.
+      specialize (IH acc dft (nopen || k_nopen k) Hr).
+      destruct (nw_loop r acc dft (nopen || k_nopen k)) as [[a d] n]. destruct IH as [I1 [I2 I3]].
+      split; [exact I1|]. split.
+      * intros Hd Hn. apply I2; [exact Hd|]. intros E. right. right. exact E.
+      * intros E. destruct (I3 E) as [H|[H|H]]; [left; exact H|right; left; rewrite H; apply orb_true_r|].
+        apply orb_true_iff in H. destruct H as [H|H]; [right; right; exact H|right; left; rewrite H; reflexivity].
+    + destruct (k_dft k) eqn:D.
+      * specialize (IH (acc ++ [LMult]) true (nopen || k_nopen k) Hr).
+        destruct (nw_loop r (acc ++ [LMult]) true (nopen || k_nopen k)) as [[a d] n]. destruct IH as [I1 [I2 I3]].
+        assert (Hne : acc ++ [LMult] <> []) by (intros E; apply app_eq_nil in E; destruct E; discriminate).
+        split; [intros _; exact (I1 Hne)|]. split; [intros _ _ _; exact (I1 Hne)|]. intros _. left. exact (I1 Hne).
+      * destruct (k_scf k) eqn:S.
+        { destruct nopen eqn:N.
+          - specialize (IH acc dft true Hr). destruct (nw_loop r acc dft true) as [[a d] n]. destruct IH as [I1 [I2 I3]].
+            split; [exact I1|]. split; [intros Hd Hn; apply I2; [exact Hd|intros _; right; right; reflexivity]|].
+            intros _. right. right. reflexivity.
+          - specialize (IH (acc ++ [LNopen]) dft true Hr).
+            destruct (nw_loop r (acc ++ [LNopen]) dft true) as [[a d] n]. destruct IH as [I1 [I2 I3]].
+            assert (Hne : acc ++ [LNopen] <> []) by (intros E; apply app_eq_nil in E; destruct E; discriminate).
+            split; [intros _; exact (I1 Hne)|]. split; [intros _ _ _; exact (I1 Hne)|]. intros _. left. exact (I1 Hne). }
+        { specialize (IH acc dft (nopen || k_nopen k) Hr).
+          destruct (nw_loop r acc dft (nopen || k_nopen k)) as [[a d] n]. destruct IH as [I1 [I2 I3]].
+          split; [exact I1|]. split.
+          - intros Hd Hn. apply I2; [exact Hd|]. intros E. right. right. exact E.
+          - intros E. destruct (I3 E) as [H|[H|H]]; [left; exact H|right; left; rewrite H; apply orb_true_r|].
+            apply orb_true_iff in H. destruct H as [H|H]; [right; right; exact H|right; left; rewrite H; reflexivity]. }
+Qed.
